@@ -200,6 +200,11 @@ def r2_parsing(ctx):
     txt = u(pm.node)
     ok = "values[mask] = parser(number_text[mask])" in txt and "mask = number_text.lengths > 0" in txt and "values = np.full(len(number_text), missing_value, dtype=dtype)" in txt
     ctx.ob(pm.where, "optional columns: non-empty rows are parsed and stored under the same mask; the rest keep the missing value", ok, "", key="C18-R2|missing")
+    touched = [x for x in body_walk(pm.node) if (isinstance(x, ast.Assign) and isinstance(x.targets[0], ast.Subscript) and u(x.targets[0].value) == "mask") or
+               (isinstance(x, ast.AugAssign) and (u(x.target) == "mask" or (isinstance(x.target, ast.Subscript) and u(x.target.value) == "mask")))]
+    redefs = [x for x in body_walk(pm.node) if isinstance(x, ast.Assign) and u(x.targets[0]) == "mask"]
+    ctx.ob(pm.where, "every non-empty text reaches the parser: the mask of parsed rows is `length > 0` and nothing else (a value such as '.5' is a number, not a missing marker)",
+           not touched and len(redefs) == 1, "; ".join(u(x) for x in touched + redefs[1:]), key="C18-R2|missing-mask-only-empty")
 
 
 def r3_digit_matrix(ctx):
